@@ -563,6 +563,7 @@ class Check:
         self.rules = {}  # rule -> {"text":..., "instances": n, "min": m}
         self.explanation = ""
         self.extra = {}
+        self.analysis_errors = []
         self._known = load_known_findings()
 
     # rule bookkeeping
@@ -609,14 +610,24 @@ class Check:
     def note(self, text):
         self.notes.append(text)
 
+    def attempt(self, fn, *args, **kw):
+        """run one independent rule group; an AnalysisError there does not stop the other groups.
+        At the end: violations found elsewhere are still reported (exit 1); if there are none,
+        the analysis error makes the run exit 2."""
+        try:
+            return fn(*args, **kw)
+        except AnalysisError as e:
+            self.analysis_errors.append(f"{getattr(fn, '__name__', 'rule')}: {e}")
+            return None
+
     def count(self, what, n):
         self.analysed[what] = self.analysed.get(what, 0) + n
 
     # finishing
     def finish(self):
-        # vacuity guard
+        # vacuity guard (only meaningful when every rule group could run)
         for rid, r in self.rules.items():
-            if r["instances"] < r["min"]:
+            if r["instances"] < r["min"] and not self.analysis_errors and not self.violations:
                 raise AnalysisError(
                     f"rule {rid} matched {r['instances']} instance(s), fewer than the "
                     f"{r['min']} confirmed by hand on the pinned tree: the rule lost its anchors"
@@ -642,6 +653,7 @@ class Check:
             "rules": {k: v for k, v in self.rules.items()},
             "analysed": self.analysed,
             "notes": self.notes,
+            "undecided": self.analysis_errors,
             "programs": self.analysed.get("programs", max(1, self.analysed.get("functions", 1))),
             "disagreements_checked": n_ob,
             "exhaustive": bool(self.extra.get("exhaustive", False)),
@@ -669,8 +681,14 @@ class Check:
                 json.dump(self.violations, f, indent=1, ensure_ascii=False, default=str)
             for v in self.violations:
                 print(f"  [{v['rule']}] {v['where']}: {v['what']}")
+            for a in self.analysis_errors:
+                print(f"  (undecided) {a}")
             print(f"VIOLATION property={self.pid} replay={vio_path}")
             return 1
+        if self.analysis_errors:
+            for a in self.analysis_errors:
+                print(f"ANALYSIS-ERROR property={self.pid} {a}")
+            return 2
         if os.path.exists(vio_path):
             os.remove(vio_path)
         print(
